@@ -130,3 +130,13 @@ Fixpoint hw_edges_from (k : N) (evs : list hw_event) : list hw_edge :=
 Definition hw_edges (evs : list hw_event) : list hw_edge := hw_edges_from 0 evs.
 (* the edge lies between the two markers it is enclosed by in the FIFO (not displaced to the wrong side) *)
 Definition in_window (e : hw_edge) : Prop := he_k e * HALF <= he_T e /\ he_T e < (he_k e + 1) * HALF.
+
+(* the buffers the program must end up with for these boards *)
+Definition hw_pieces (boards : list (N * list hw_event)) : buffers :=
+  map (fun be => (fst be, hw_stream (snd be))) boards.
+
+(* what a CSV row must say about an edge *)
+Definition row_matches (b : N) (e : hw_edge) (r : row) : Prop :=
+  r_board r = b /\ r_channel r = he_ch e /\ r_leading r = negb (he_tr e) /\
+  (forall t, r_time r = Some t -> t = true_time (he_T e)) /\
+  (r_time r = None <-> ~ (he_later e = true /\ in_window e)).
